@@ -31,7 +31,34 @@ def model_xref(X, st, fi, args, kwargs):
     return [Res(st, NONE)]
 
 
+def model_compatible(X, st, fi, args, kwargs):
+    """version.compatible(s): assumed contract -- a deterministic boolean function of the version string,
+    or ValueError / IndexError for a string that is not <int>.<int>... (string parsing is not modelled;
+    the function itself is checked natively on a grid of version strings)"""
+    from .core import VBool, VStr
+
+    s = args[0]
+    t = s.t if isinstance(s, VStr) else None
+    if t is None:
+        from . import jsonmodel as JM
+
+        t = JM.jstr(s.t)
+    ok = z3.Function("version_parses", core.StrS, z3.BoolSort())(t)
+    comp = z3.Function("version_compatible", core.StrS, z3.BoolSort())(t)
+    out = []
+    for s2, parses in X.branch(st, ok):
+        if parses:
+            out.append(Res(s2, VBool(comp)))
+        else:
+            from .execu import Exc
+            from .execu import Res as R
+
+            out.append(R(s2, exc=Exc("ValueError", "version string")))
+    return out
+
+
 STD_MODELS = {
+    "histogrammar.version.compatible": model_compatible,
     "histogrammar.defs.Factory.specialize": model_specialize,
     "histogrammar.defs.Container._checkForCrossReferences": model_xref,
 }
